@@ -210,3 +210,18 @@ pub fn ref_validity(len: u32, buckets: usize) -> u8 {
         3
     }
 }
+
+/// Contract model of `core::str::from_utf8` for the texts this crate produces: the real
+/// validator (word-at-a-time, alignment dependent) is very expensive on symbolic bytes.  Pure
+/// ASCII is valid UTF-8; any non-ASCII byte fails the harness (for this crate it would be a bug:
+/// every text it formats is "T1" + hexadecimal digits).
+#[cfg(kani)]
+pub fn stub_from_utf8(v: &[u8]) -> Result<&str, core::str::Utf8Error> {
+    let mut i = 0;
+    while i < v.len() {
+        assert!(v[i] < 128, "non-ASCII byte handed to str::from_utf8");
+        i += 1;
+    }
+    #[allow(unsafe_code)]
+    Ok(unsafe { core::str::from_utf8_unchecked(v) })
+}
